@@ -187,6 +187,17 @@ def scenarios():
                            "func main() {\n\tcfg := &Config{P: &DB{DSN: \"a\"}}\n\ts := initSvc(cfg)\n\tfmt.Println(s.PP == &cfg.P, s.P == cfg.P, (*s.PP).DSN)\n}\n"),
         "h6/app/wire.go": INJ + ("package main\n\nimport \"%s\"\n\nfunc initSvc(cfg *Config) *Svc {\n\tpanic(wire.Build(wire.FieldsOf(new(*Config), \"P\"), NewSvc))\n}\n") % W,
     }, "./h6/app", "true true a", ["C12", "C02"])
+    # two packages with one name declaring the same identifiers (a set, a provider, a binding), used by sibling injectors
+    def store(kind):
+        return ("package store\n\nimport \"%s\"\n\ntype Backend interface{ Kind() string }\ntype Store struct{ K string }\n\nfunc (s *Store) Kind() string { return s.K }\n\n"
+                "func New() *Store { return &Store{K: \"%s\"} }\n\nvar Binding = wire.Bind(new(Backend), new(*Store))\n\nvar Set = wire.NewSet(New, Binding)\n") % (W, kind)
+    add("I-same-named-packages-same-identifiers", "I", {
+        "i1/mysql/store/store.go": store("mysql"), "i1/memory/store/store.go": store("memory"),
+        "i1/app/main.go": "package main\n\nimport \"fmt\"\n\nfunc main() { fmt.Println(initProd().Kind(), initDev().Kind(), initDevFn().K, initProdBackend().Kind()) }\n",
+        "i1/app/wire.go": INJ + ("package main\n\nimport (\n\tmem \"example.com/l/i1/memory/store\"\n\tsql \"example.com/l/i1/mysql/store\"\n\t\"%s\"\n)\n\n"
+                                 "func initProd() sql.Backend {\n\tpanic(wire.Build(sql.Set))\n}\n\nfunc initDev() mem.Backend {\n\tpanic(wire.Build(mem.Set))\n}\n\n"
+                                 "func initDevFn() *mem.Store {\n\tpanic(wire.Build(mem.New))\n}\n\nfunc initProdBackend() sql.Backend {\n\tpanic(wire.Build(sql.New, sql.Binding))\n}\n") % W,
+    }, "./i1/app", "mysql memory memory mysql", ["C02", "C06", "C11", "C05", "C14"])
     # variadic provider fed from a slice provider, variadic injector parameter consumed as a slice
     add("H-variadic-provider-and-injector", "H", {
         "h5/app/main.go": ("package main\n\nimport \"fmt\"\n\ntype Option string\ntype App struct {\n\tOpts []Option\n\tIDs  []string\n}\n\nfunc NewOptions() []Option { return []Option{\"a\", \"b\"} }\n"
@@ -194,6 +205,19 @@ def scenarios():
                            "func main() {\n\ta := initApp(\"x\", \"y\")\n\tb := initApp()\n\tfmt.Println(len(a.Opts), a.Opts[1], len(a.IDs), a.IDs[0], len(b.IDs), len(b.Opts))\n}\n"),
         "h5/app/wire.go": INJ + ("package main\n\nimport \"%s\"\n\nfunc initApp(ids ...string) *App {\n\tpanic(wire.Build(NewOptions, NewApp))\n}\n") % W,
     }, "./h5/app", "2 b 2 x 0 2", ["C01", "C02"])
+    # a value whose unkeyed literal sets an unexported field of the library's struct
+    libu = ("package lib\n\nimport \"%s\"\n\ntype Pair struct {\n\tName   string\n\thidden int\n}\n\nfunc (p Pair) Hidden() int { return p.hidden }\n\n"
+            "var Unkeyed = wire.NewSet(wire.Value(Pair{\"a\", 7}))\nvar Nested = wire.NewSet(wire.Value([]Pair{{\"a\", 7}}))\nvar Keyed = wire.NewSet(wire.Value(Pair{Name: \"k\"}))\n") % W
+    rxu = r"wire\.go:\d+:\d+: inject initX: value \S+ can't be used: .*unexported field"
+    for g, expr, res in (("u1", "lib.Unkeyed", "lib.Pair"), ("u2", "lib.Nested", "[]lib.Pair")):
+        add("E-unkeyed-literal-with-unexported-field-%s" % g, "E", {
+            "%s/lib/lib.go" % g: libu, "%s/app/app.go" % g: "package main\n\nfunc main() {}\n",
+            "%s/app/wire.go" % g: INJ + "package main\n\nimport (\n\t\"example.com/l/%s/lib\"\n\t\"%s\"\n)\n\nfunc initX() %s {\n\tpanic(wire.Build(%s))\n}\n" % (g, W, res, expr)},
+            "./%s/app" % g, None, ["C13", "C01", "C19"], reject=rxu)
+    add("G-keyed-literal-of-a-struct-with-unexported-fields", "G", {
+        "u3/lib/lib.go": libu, "u3/app/app.go": "package main\n\nimport \"fmt\"\n\nfunc main() { p := initX(); fmt.Println(p.Name, p.Hidden()) }\n",
+        "u3/app/wire.go": INJ + "package main\n\nimport (\n\t\"example.com/l/u3/lib\"\n\t\"%s\"\n)\n\nfunc initX() lib.Pair {\n\tpanic(wire.Build(lib.Keyed))\n}\n" % W},
+        "./u3/app", "k 0", ["C13", "C01"])
     return S
 
 
